@@ -875,6 +875,37 @@ func (env *SpecEnv) call(e *Expr) (SpecVal, error) {
 			kt = env.litTerm(as[0].Lit, arrayKeySort(found[0].Sort))
 		}
 		return SpecVal{T: Select(found[0], kt)}, nil
+	case "istype", "cast":
+		// istype(x, T): the dynamic type of interface value x is T; cast(x, T): its value as T
+		if len(args) != 2 {
+			return SpecVal{}, fmt.Errorf("%s(x, T)", name)
+		}
+		x, err := env.Eval(args[0])
+		if err != nil {
+			return SpecVal{}, err
+		}
+		if x.T.Sort != SIface {
+			return SpecVal{}, fmt.Errorf("%s: not an interface value", name)
+		}
+		tn, ok := exprTypeName(args[1])
+		if !ok {
+			return SpecVal{}, fmt.Errorf("%s: second argument must be a type", name)
+		}
+		ty, err := env.resolveTypeName(tn)
+		if err != nil {
+			return SpecVal{}, err
+		}
+		if name == "istype" {
+			return SpecVal{T: Eq(ITag(x.T), IntLit(int64(vc.tt.TID(ty))))}, nil
+		}
+		if _, isPtr := ty.Underlying().(*types.Pointer); isPtr {
+			return SpecVal{T: IRefOf(x.T), Ty: ty}, nil
+		}
+		v, err := vc.loadRaw(env.cur, IRefOf(x.T), ty)
+		if err != nil {
+			return SpecVal{}, err
+		}
+		return SpecVal{T: v, Ty: ty}, nil
 	case "received":
 		// received(ch): number of values received from channel ch so far (ghost)
 		as, err := evalArgs()
@@ -1114,6 +1145,25 @@ func (env *SpecEnv) call(e *Expr) (SpecVal, error) {
 		}
 	}
 	return SpecVal{}, fmt.Errorf("unknown spec function %q", name)
+}
+
+// exprTypeName prints a spec expression that denotes a type (*pkg.Name, []T, Name).
+func exprTypeName(e *Expr) (string, bool) {
+	switch e.Kind {
+	case EIdent:
+		return e.Name, true
+	case EField:
+		if b, ok := exprTypeName(e.Args[0]); ok {
+			return b + "." + e.Op, true
+		}
+	case EUnary:
+		if e.Op == "*" {
+			if b, ok := exprTypeName(e.Args[0]); ok {
+				return "*" + b, true
+			}
+		}
+	}
+	return "", false
 }
 
 func (env *SpecEnv) pkgPath() string {
